@@ -112,7 +112,10 @@ TplTab == <<
   [q |-> "\"", c |-> "{% vfjoin x 'a&b' s %}",           single |-> FALSE, inner |-> <<>>],
   [q |-> "\"", c |-> "{% trans 'k 2' %}",                single |-> FALSE, inner |-> <<>>],
   [q |-> "'",  c |-> "{{ x|unlocalize }}",               single |-> TRUE,  inner |-> <<"x|unlocalize">>],
-  [q |-> "\"", c |-> "{% vfjoin it %}/{% trans 'k' %}",  single |-> FALSE, inner |-> <<>>] >>
+  [q |-> "\"", c |-> "{% vfjoin it %}/{% trans 'k' %}",  single |-> FALSE, inner |-> <<>>],
+  \* 29.. : single-tag strings whose value is a container that is no list / no dict (SeqKinds / MapKinds)
+  [q |-> "\"", c |-> "{{ tp }}",                         single |-> TRUE,  inner |-> <<"tp">>],
+  [q |-> "'",  c |-> "{{ mp }}",                         single |-> TRUE,  inner |-> <<"mp">>] >>
 
 \* Template-tag libraries that a {% load %} in front of the tag has made available where every
 \* generated tag stands (the harness registers "vf_c02_ext": filter vfwrap[:arg], simple tag vfjoin;
@@ -131,6 +134,25 @@ Sf(s) == [t |-> "safe", s |-> s]
 L(xs) == [t |-> "list", items |-> xs]
 D(es) == [t |-> "dict", items |-> es]
 E(k, v) == [k |-> k, v |-> v]
+\* Python TYPES of container values.  What a spread does with its operand is decided by what the
+\* value IS in Python terms, never by its concrete class (Python: f(*it), f(**m), [*it], {**m}; the
+\* v0.125 changelog: "Spreading args and kwargs with `...`: {% my_tag ...args ...kwargs / %}"):
+\*   a MAPPING (collections.abc.Mapping - dict, subclasses of dict such as OrderedDict, and the
+\*   mappings that are no dict: types.MappingProxyType, collections.ChainMap, collections.UserDict)
+\*   gives its entries: keyword arguments for a top-level `...m`, entries of the literal for `{**m}`;
+\*   any OTHER ITERABLE (list, tuple, range, the keys() view of a dict) gives its items: positional
+\*   arguments for a top-level `...it`, items of the literal for `[*it]`.
+\* A value of kind k is [t |-> k, items |-> ..]: the items in iteration order, or the entries E(k, v).
+\* Not spread, such a value is handed over as the object it is (a leaf like any other).
+SeqKinds == {"list", "tuple", "range", "keys"}                      \* iterables that are no mapping
+MapKinds == {"dict", "odict", "mproxy", "chainmap", "userdict"}     \* mappings
+Tup(xs) == [t |-> "tuple", items |-> xs]       \* tuple(xs)
+Rng(xs) == [t |-> "range", items |-> xs]       \* range(a, b): xs are the consecutive ints a .. b-1
+Kys(xs) == [t |-> "keys", items |-> xs]        \* {x: .. for x in xs}.keys()
+OD(es)  == [t |-> "odict", items |-> es]       \* collections.OrderedDict (a dict subclass)
+MP(es)  == [t |-> "mproxy", items |-> es]      \* types.MappingProxyType({..})
+CM(es)  == [t |-> "chainmap", items |-> es]    \* collections.ChainMap({first entry}, {the others})
+UD(es)  == [t |-> "userdict", items |-> es]    \* collections.UserDict({..})
 
 \* The context every generated tag is rendered with (exported to the harness, which builds
 \* the Python context from it).
@@ -158,13 +180,28 @@ Ctx == [x    |-> I(7),
         dn   |-> D(<<E(Nil, St("a&b")), E(St("<k>"), Nil), E(I(0), B(FALSE)), E(St(""), St("'"))>>),
         dh   |-> D(<<E(St("t"), St("R&D")), E(St("u"), Nil), E(St("a&b"), St("")), E(St("<w>"), I(0)),
                      E(St("it's"), B(FALSE))>>),
+        \* Containers by Python type (SeqKinds / MapKinds): iterables that are no list, mappings that
+        \* are no dict - as a value, and as the operand of every spread.  tp rg ks et: iterables;
+        \* mp cm ud od em: mappings whose keys are str (may become keyword arguments); mn: a mapping
+        \* with None / 0 / "" / text keys (operand of ** in a dict literal only).
+        tp   |-> Tup(<<I(1), St("t&u"), Nil>>),
+        rg   |-> Rng(<<I(2), I(3), I(4)>>),
+        ks   |-> Kys(<<St("ka"), I(0), Nil>>),
+        et   |-> Tup(<<>>),
+        mp   |-> MP(<<E(St("m1"), I(1)), E(St("m-2"), St("v&w"))>>),
+        cm   |-> CM(<<E(St("c1"), Nil), E(St("@c.2"), I(0))>>),
+        ud   |-> UD(<<E(St("u1"), St("")), E(St("u_2"), L(<<I(2)>>))>>),
+        od   |-> OD(<<E(St("o1"), I(3)), E(St("o-2"), B(FALSE))>>),
+        em   |-> MP(<<>>),
+        mn   |-> MP(<<E(Nil, St("a")), E(I(0), Nil), E(St(""), St("<"))>>),
         \* loop variable and the sequence it runs over (see LoopCtx)
         it   |-> St("0"),
         its  |-> L(<<St("1"), St("2")>>)]
 \* A compiled template is rendered many times: the same tag must hand over what its arguments
 \* denote in EACH context it is rendered with.  Ctx2 is a second context for the same templates:
-\* every variable has another value (of the same kind: int/str/.. may change, a list stays a list
-\* and a dict a dict, the str-keyed dicts stay str-keyed), None and the falsy values sit elsewhere.
+\* every variable has another value (of the same kind: int/str/.. may change, an iterable stays an
+\* iterable and a mapping a mapping - the Python type may be another one of SeqKinds / MapKinds -, the
+\* str-keyed mappings stay str-keyed), None and the falsy values sit elsewhere.
 Ctx2 == [x    |-> I(8),
          s    |-> St("wo rld"),
          xs   |-> L(<<St("c"), I(2), I(3)>>),
@@ -184,6 +221,16 @@ Ctx2 == [x    |-> I(8),
          hs   |-> L(<<St(">"), I(1), Nil>>),
          dn   |-> D(<<E(St("n"), Nil), E(Nil, St("<")), E(I(1), B(TRUE))>>),
          dh   |-> D(<<E(St("t"), St("x<y")), E(St("u"), I(0)), E(St("a&b"), Nil), E(St("v&w"), St("'"))>>),
+         tp   |-> Kys(<<St("c"), I(2)>>),
+         rg   |-> Tup(<<St("r")>>),
+         ks   |-> Rng(<<I(0), I(1)>>),
+         et   |-> Rng(<<I(6)>>),
+         mp   |-> UD(<<E(St("m1"), I(2)), E(St("m3"), Nil)>>),
+         cm   |-> OD(<<E(St("c1"), St("x<y")), E(St("c3"), I(0)), E(St("c-4"), I(4))>>),
+         ud   |-> MP(<<E(St("u1"), I(0))>>),
+         od   |-> CM(<<E(St("o1"), Nil), E(St("o3"), St("'")), E(St("o-4"), I(4))>>),
+         em   |-> UD(<<E(St("e1"), I(1))>>),
+         mn   |-> CM(<<E(St("n"), Nil), E(Nil, St("<")), E(I(1), B(TRUE))>>),
          it   |-> St("9"),
          its  |-> L(<<St("3"), St("4")>>)]
 Ctxs == <<Ctx, Ctx2>>
@@ -194,8 +241,15 @@ LoopOver == "its"
 LoopCtx(c, i) == [c EXCEPT !.it = c.its.items[i]]
 LoopCtxs == [k \in 1..Len(Ctxs) |-> [i \in 1..Len(Ctxs[k].its.items) |-> LoopCtx(Ctxs[k], i)]]
 CtxsOK == /\ DOMAIN Ctx2 = DOMAIN Ctx
+          /\ SeqKinds \cap MapKinds = {}
           /\ \A n \in DOMAIN Ctx : /\ Ctx2[n] # Ctx[n]
-                                   /\ (Ctx[n].t \in {"list", "dict"} \/ Ctx2[n].t \in {"list", "dict"}) => Ctx2[n].t = Ctx[n].t
+                                   /\ (Ctx[n].t \in SeqKinds) = (Ctx2[n].t \in SeqKinds)
+                                   /\ (Ctx[n].t \in MapKinds) = (Ctx2[n].t \in MapKinds)
+                                   \* the plain ones keep their class (the finding keys are stated for them)
+                                   /\ Ctx[n].t \in {"list", "dict"} => Ctx2[n].t = Ctx[n].t
+          \* a range holds consecutive ints
+          /\ \A c \in {Ctx, Ctx2} : \A n \in DOMAIN c :
+                c[n].t = "range" => \A i \in 1..Len(c[n].items) : c[n].items[i] = I(c[n].items[1].i + i - 1)
 \* `None`, `True` and `False` are written like variables and mean the Python constants in a stock
 \* Django expression (as every leaf they are valued by stock Django): Var("None"), Var("False").
 
@@ -357,10 +411,11 @@ DEntries(c, items, i) ==
 TplVar(v) == v.t = "tpl" /\ TplTab[v.id].single /\ Len(TplTab[v.id].inner) = 1
              /\ TplTab[v.id].inner[1] \in DOMAIN Ctx
 SpreadBase(v) == IF v.t = "filt" THEN v.b ELSE IF TplVar(v) THEN Var(TplTab[v.id].inner[1]) ELSE v
-IsListy(v) == v.t = "list" \/ (SpreadBase(v).t = "var" /\ Ctx[SpreadBase(v).n].t = "list")
+\* (the rule is about the Python kind of the value: a mapping -> keywords, another iterable -> positionals)
+IsListy(v) == v.t = "list" \/ (SpreadBase(v).t = "var" /\ Ctx[SpreadBase(v).n].t \in SeqKinds)
 \* every key of the dict variable n is a str (only such a dict can become keyword arguments)
 \* (in every context the templates are rendered with)
-StrKeyed(n) == \A k \in 1..Len(Ctxs) : /\ Ctxs[k][n].t = "dict"
+StrKeyed(n) == \A k \in 1..Len(Ctxs) : /\ Ctxs[k][n].t \in MapKinds
                                         /\ \A i \in 1..Len(Ctxs[k][n].items) : Ctxs[k][n].items[i].k.t = "str"
 Name(s) == [t |-> "name", s |-> s]
 
@@ -418,7 +473,7 @@ Outcomes(args, st) ==
 \* the fill as the slot data - applicable to keyword-only argument lists.
 Paths == {"probe", "comp", "short", "slot"}
 DictishOperand(v) ==
-  LET b == SpreadBase(v) IN b.t = "dict" \/ (b.t = "var" /\ b.n \in DOMAIN Ctx /\ Ctx[b.n].t = "dict")
+  LET b == SpreadBase(v) IN b.t = "dict" \/ (b.t = "var" /\ b.n \in DOMAIN Ctx /\ Ctx[b.n].t \in MapKinds)
 SlotArg(a) == \/ a.t \in {"kw", "agg", "kwspread"}
               \/ (a.t = "spread" /\ a.tok = "..." /\ DictishOperand(a.v))
 SlotApplies(args) == \A i \in 1..Len(args) : SlotArg(args[i])
